@@ -109,6 +109,10 @@ class QV:
         self.m = milli
         self.kind = kind
 
+    def __pyvc_truth__(self):
+        # bool(float): false exactly for zero (nan and the infinities are true)
+        return (self.m != 0) if self.kind == 'fin' else True
+
     @staticmethod
     def lift(o):
         if isinstance(o, QV):
@@ -887,6 +891,9 @@ def _handlers_setup(reg, ex):
 @stubclass
 class Handler:
     """An opaque media handler (a value of the mapping)."""
+
+    def __pyvc_truth__(self):
+        return True  # an ordinary object (no __bool__/__len__): always true, as for the real class
 
     def __init__(self, name, sync=False):
         self.name = name
